@@ -145,6 +145,18 @@ class Sym:
         return f"Sym{self.n}{self.term}"
 
 
+class PInt:
+    """an exact (unbounded) Python integer computed from data: `.uint()` / `.int()` of a Bits value and arithmetic on it --
+    no reduction modulo 2^n happens on it"""
+    __slots__ = ('term', 'ub', 'signed')
+
+    def __init__(self, term, ub, signed=False):
+        self.term, self.ub, self.signed = term, ub, signed
+
+    def __repr__(self):
+        return f"PInt{self.term}"
+
+
 class IntSym:
     """an unknown Python integer (assembler operand); bit k of it is the source ('m', k)"""
     def __init__(self, tag='m'):
@@ -241,6 +253,14 @@ class Raised(Exception):
         self.what = what
 
 
+class _Continue(Exception):
+    pass
+
+
+class _Break(Exception):
+    pass
+
+
 class _Return(Exception):
     def __init__(self, value):
         self.value = value
@@ -259,7 +279,7 @@ def termof(v):
         return ('const', v)
     if isinstance(v, BV):
         return ('const', v.value()) if v.concrete() else ('bv', v.bits)
-    if isinstance(v, Sym):
+    if isinstance(v, (Sym, PInt)):
         return v.term
     raise AnalysisError(f"value without a data term: {v!r}")
 
@@ -337,6 +357,21 @@ def comm(op, a, b):
 def binop(op, a, b, where=''):
     """Bits arithmetic on abstract values (PythonBits semantics: result width = operand width, modulo 2^n)"""
     na, nb = widthof(a), widthof(b)
+    if na is None and nb is None and (isinstance(a, PInt) or isinstance(b, PInt)):
+        ta, tb = termof(a), termof(b)
+        sg = any(isinstance(x, PInt) and x.signed for x in (a, b)) or any(isinstance(x, int) and x < 0 for x in (a, b))
+        if op == 'add':
+            return PInt(mk_add([ta, tb]), 64 if sg else max(ubof(a), ubof(b)) + 1, sg)
+        if op == 'sub':
+            return PInt(('sub', ta, tb), 64, True)
+        if op == 'and':
+            for x, y in ((a, b), (b, a)):
+                if isinstance(y, int) and y >= 0 and y & (y + 1) == 0:
+                    k = y.bit_length()
+                    if not getattr(x, 'signed', False) and x.ub <= k:
+                        return x
+                    return PInt(mk_mod(k, termof(x)), k)
+        raise AnalysisError(f"operator {op} on Python integers derived from data {where}")
     if na is None and nb is None:
         if isinstance(a, (int, bool)) and isinstance(b, (int, bool)):
             import operator
@@ -352,6 +387,8 @@ def binop(op, a, b, where=''):
     for x in (a, b):
         if isinstance(x, (int, bool)) and not (0 <= int(x) <= mask):
             raise AnalysisError(f"integer operand {x} does not fit Bits{n} {where}")
+        if isinstance(x, PInt) and (x.signed or x.ub > n):
+            raise AnalysisError(f"Python integer operand of unbounded magnitude combined with Bits{n} {where}")
     if is_conc(a) and is_conc(b):
         x, y = conc(a), conc(b)
         if op == 'add': r = x + y
@@ -493,6 +530,10 @@ def to_bits(v, n, where=''):
         return BV.const(v & ((1 << n) - 1), n)
     if isinstance(v, IntSym):
         return BV((v.tag, k) for k in range(n))
+    if isinstance(v, PInt):
+        if v.signed or v.ub > n:
+            raise AnalysisError(f"Bits{n}( unbounded Python integer ) {where}")
+        return Sym(v.term, n, v.ub)
     if isinstance(v, (BV, Sym)):
         if v.n != n:
             raise AnalysisError(f"Bits{n}( Bits{v.n} ) {where}")
@@ -502,6 +543,8 @@ def to_bits(v, n, where=''):
 
 def eq3(a, b, where=''):
     """three-valued equality: True / False / raises Undetermined or returns a Sym condition"""
+    if isinstance(a, PInt) or isinstance(b, PInt):
+        return Sym(comm('eq', termof(a), termof(b)), 1)
     if isinstance(a, (Sym,)) or isinstance(b, (Sym,)):
         for x, y in ((a, b), (b, a)):
             if isinstance(x, Sym) and isinstance(y, (int, bool)) and not (0 <= int(y) < (1 << x.n)):
@@ -545,7 +588,7 @@ def order3(op, a, b, where=''):
             return x, x, None
         if isinstance(x, BV):
             return x.lo(), x.hi(), x.first_free()
-        if isinstance(x, Sym):
+        if isinstance(x, Sym) or (isinstance(x, PInt) and not x.signed):
             return 0, (1 << x.ub) - 1, 'sym'
         raise AnalysisError(f"order comparison of {x!r} {where}")
     la, ha, fa = rng(a)
@@ -1065,10 +1108,17 @@ class Interp:
         raise AnalysisError(f"call outside the abstract domain {where}")
 
     def call_method(self, base, attr, args, kwargs, where):
-        if isinstance(base, (BV, Sym)) and attr in ('uint', 'clone', 'to_bits') and not args:
+        if isinstance(base, (BV, Sym)) and attr in ('clone', 'to_bits') and not args:
             return base
-        if isinstance(base, (BV, Sym)) and attr == 'int':
-            raise AnalysisError(f"signed interpretation outside the abstract domain {where}")
+        if isinstance(base, (BV, Sym)) and attr == 'uint' and not args:
+            if isinstance(base, BV) and base.concrete():
+                return base.value()
+            return PInt(termof(base), ubof(base))
+        if isinstance(base, (BV, Sym)) and attr == 'int' and not args:
+            if isinstance(base, BV) and base.concrete():
+                v = base.value()
+                return v - (1 << base.n) if (v >> (base.n - 1)) & 1 else v
+            return PInt(('sint', base.n, termof(base)), 64, True)
         if isinstance(base, StrTok):
             if attr in ('lstrip', 'rstrip', 'strip', 'lower', 'upper'):
                 return StrTok(base.tag)
@@ -1206,8 +1256,19 @@ class Interp:
     def st_For(self, st):
         for item in self.iterate(self.ev(st.iter), st.iter):
             self.bind(st.target, item)
-            self.run(st.body)
+            try:
+                self.run(st.body)
+            except _Continue:
+                continue
+            except _Break:
+                return
         self.run(st.orelse)
+
+    def st_Continue(self, st):
+        raise _Continue()
+
+    def st_Break(self, st):
+        raise _Break()
 
     def st_FunctionDef(self, st):
         self.env[st.name] = FuncRef(self.mod, st)
